@@ -137,3 +137,27 @@ Example ex_C05_inhabited :
   /\ String.length (text ex_g ex_lay) = 171%nat.
 Proof. vm_compute. repeat split; reflexivity. Qed.
 Print Assumptions ex_C05_inhabited.
+
+(** Nesting of one operator inside the same operator is part of the tree (the fallback LEVELS of
+    `a || (b || (c || d))` differ from those of `a || b || c || d`): the printer writes the inner
+    node in parentheses and the parser gives the nesting back -- for ||, | and juxtaposition. *)
+Definition ex_t (s : string) : expr := Terminal s None 0 ex_sp.
+Definition ex_nested : grammar :=
+  [ CallVariant "cmd" ex_sp
+      (Fallback [ ex_t "a";
+                  Fallback [ex_t "b"; Fallback [ex_t "c"; ex_t "d"] ex_sp] ex_sp;
+                  Alternative [Alternative [ex_t "e"; ex_t "f"] ex_sp; ex_t "g"] ex_sp;
+                  Sequence [ex_t "h"; Sequence [ex_t "i"; ex_t "j"] ex_sp] ex_sp ] ex_sp) ].
+Definition ex_flat : grammar :=
+  [ CallVariant "cmd" ex_sp
+      (Fallback [ ex_t "a"; ex_t "b"; ex_t "c"; ex_t "d";
+                  Alternative [ex_t "e"; ex_t "f"; ex_t "g"] ex_sp;
+                  Sequence [ex_t "h"; ex_t "i"; ex_t "j"] ex_sp ] ex_sp) ].
+Example ex_C05_nested_same_operator :
+  wf ex_nested
+  /\ parse_with repaired (text ex_nested ex_lay) = Ok (located ex_nested ex_lay)
+  /\ erase_grammar (located ex_nested ex_lay) = erase_grammar ex_nested
+  /\ parse_with repaired (text ex_flat ex_lay) = Ok (located ex_flat ex_lay)
+  /\ erase_grammar ex_nested <> erase_grammar ex_flat.
+Proof. vm_compute. repeat split; try reflexivity. discriminate. Qed.
+Print Assumptions ex_C05_nested_same_operator.
